@@ -122,13 +122,77 @@ def rnd_name(rng, base):
     return "%s/%s/%s:%s" % (cs(h), cs(n), cs(m), cs(t))
 
 
+def split_name(s):
+    """names.Parse: the four parts (host, namespace, model, tag) as the parser cuts them, without any validation"""
+    h = n = m = t = ""
+    if len(s) > 350 + 1 + 80 + 1 + 80 + 1 + 80:
+        return ("", "", "", "")
+    while True:
+        i = max(s.rfind("/"), s.rfind(":"))
+        if i < 0:
+            m = s
+            break
+        c, before, after = s[i], s[:i], s[i + 1:]
+        if c == ":":
+            t = after
+            s = before
+            continue
+        j = before.rfind("/")
+        h, n = (before[:j], before[j + 1:]) if j >= 0 else ("", before)
+        m = after
+        break
+    return (h, n, m, t)
+
+
+def valid_part(kind, s):
+    """names.isValidPart (kind: 0 host, 1 namespace, 2 model, 3 tag)"""
+    if len(s) > (350 if kind == 0 else 80):
+        return False
+    for i, ch in enumerate(s):
+        alnum = ch.isascii() and (ch.isalnum() or ch == "_")
+        if i == 0:
+            if not alnum:
+                return False
+            continue
+        if ch in "_-":
+            continue
+        if ch == ".":
+            if kind == 1:
+                return False
+            continue
+        if ch == ":":
+            if kind != 0:
+                return False
+            continue
+        if not alnum:
+            return False
+    return True
+
+
 def name_to_path(name):
-    """python twin of nameToPath for the names this generator produces (None = invalid)"""
-    if name in INVALID_NAMES or "@" in name:
+    """python twin of nameToPath (names.Parse + IsFullyQualified + filepath.Join); None = invalid name"""
+    if "@" in name:
         return None
-    hn, t = name.rsplit(":", 1)
-    h, n, m = hn.split("/")
-    return [h, n, m, t]
+    parts = split_name(name)
+    if any(p == "" for p in parts) or not all(valid_part(k, p) for k, p in enumerate(parts)):
+        return None
+    return list(parts)
+
+
+# parts that are syntactically plausible but odd: dots, leading - and _, trailing dot, port, maximal and over-long parts
+ODD_PARTS = [
+    ["h", "H", "reg.io", "h:5000", "_h", "h.", ".", "..", ".x", "..x", "-h", "h" * 200, "h" * 351],
+    ["n", "N", "_n", "n-1", "n.", ".", "..", ".n", "-n", "n" * 80, "n" * 81],
+    ["m", "M", "m.", "_m", "mod-1", ".", "..", ".m", "..m", "-m", "m" * 80, "m" * 81],
+    ["t", "T", "v1.0", "t.", "_t", ".", "..", ".t", "-t", "t" * 80, "t" * 81],
+]
+
+
+def odd_name(rng):
+    parts = []
+    for k in range(4):
+        parts.append(rng.choice(ODD_PARTS[k]) if rng.random() < 0.35 else ODD_PARTS[k][0])
+    return "%s/%s/%s:%s" % tuple(parts)
 
 
 def gen_hist(rng, klass=None):
@@ -144,6 +208,17 @@ def gen_hist(rng, klass=None):
             pool.append(rnd_content(rng, size0 if rng.random() < 0.3 else rng.randint(1, 40)))
     pool = list(dict.fromkeys(pool))
     bases = [("h", "n", "m", "t"), ("h", "n", "m", "u"), ("reg.io", "ns", "mod-1", "v1.0")]
+    # several distinct names per history, some with odd parts (valid or not); they are used repeatedly so that a name
+    # rejected (or accepted) once meets Link, Resolve and Unlink
+    odd = [odd_name(rng) for _ in range(rng.randint(1, 4))]
+
+    def pick_name():
+        r = rng.random()
+        if r < 0.45:
+            return rnd_name(rng, rng.choice(bases))
+        if r < 0.93:
+            return rng.choice(odd)
+        return rng.choice(INVALID_NAMES)
     ops = []
     nops = rng.randint(3, 10)
     for _ in range(nops):
@@ -170,17 +245,17 @@ def gen_hist(rng, klass=None):
         elif r < 0.55:
             ops.append({"op": "get", "d": d})
         elif r < 0.75:
-            name = rnd_name(rng, rng.choice(bases)) if rng.random() < 0.93 else rng.choice(INVALID_NAMES)
+            name = pick_name()
             ops.append({"op": "link", "name": name, "d": d})
             if rng.random() < 0.7:
-                ops.append({"op": "resolve", "name": rnd_name(rng, rng.choice(bases)) if rng.random() < 0.2 else name})
+                ops.append({"op": "resolve", "name": pick_name() if rng.random() < 0.2 else name})
         elif r < 0.85:
-            name = rnd_name(rng, rng.choice(bases)) if rng.random() < 0.93 else rng.choice(INVALID_NAMES)
+            name = pick_name()
             if rng.random() < 0.12:     # name@digest: the digest is returned as is, nothing else happens
                 name = rng.choice([name, "", "m"]) + "@" + rng.choice(["sha256:" + d, "sha256-" + d, "sha256:" + d[:-1], "x", "md5:" + d, ""])
             ops.append({"op": "resolve", "name": name})
         elif r < 0.93:
-            name = rnd_name(rng, rng.choice(bases)) if rng.random() < 0.93 else rng.choice(INVALID_NAMES)
+            name = pick_name()
             ops.append({"op": "unlink", "name": name})
         else:
             b = rng.choice(bases)
@@ -467,9 +542,27 @@ def render(c, o):
 
 # ----------------------------------------------------------------------------- monitor: the property on the implementation
 
-def fold(name):
-    p = name_to_path(name)
+def nparts(name):
+    """the four parts of a name as names.Parse cuts them ("name@" with an empty digest part is resolved by name)"""
+    if "@" in name:
+        name, dg = name.rsplit("@", 1)
+        if dg != "":
+            return None
+    return split_name(name)
+
+
+def nkey(name):
+    p = nparts(name)
     return None if p is None else tuple(x.lower() for x in p)
+
+
+def own_files(snap, parts):
+    """manifest files that sit where this name belongs: <dir>/manifests/<host>/<namespace>/<model>/<tag>, case-insensitively,
+    four real path components"""
+    if parts is None or any(x in ("", ".", "..") or "/" in x for x in parts):
+        return []
+    want = [x.lower() for x in parts]
+    return [bytes.fromhex(v) for p, v in snap["links"].items() if [x.lower() for x in p.split("/")] == want]
 
 
 def monitor_hist(c, o):
@@ -479,7 +572,8 @@ def monitor_hist(c, o):
     intended = {sha(b): b for b in pool}
     # a digest is 'size-consistent' as long as every Put of it used the size of its content (the size it is stored under)
     inconsistent = set()
-    linked = {}   # folded name -> digest given to the last successful Link (cleared by Unlink / raw edits)
+    linked = {}    # name key -> (digest given to the last successful Link of that name, its parts, the name)
+    verdict = {}   # exact name string -> "rejected" | "accepted"
     for i, (op, st) in enumerate(zip(c["ops"], o["steps"])):
         res, snap = st["res"], st["snap"]
         if op["op"] == "put" and op["size"] != len(intended[op["d"]]):
@@ -501,43 +595,70 @@ def monitor_hist(c, o):
             tot = src_total(op["src"])
             if res["d"] != sha(tot) or (tot and bytes.fromhex(snap["blobs"].get("sha256-" + res["d"], "")) != tot):
                 out.append(({"kind": "hist", "class": "import-wrong"}, "op %d: Import returned %s.. for data hashing to %s.., or stored other bytes" % (i, res["d"][:8], sha(tot)[:8])))
-        # (3) a name is linked only to a manifest blob that exists (Get's notion of presence)
+        # names: a name is either rejected by every operation or by none
+        if op["op"] in ("link", "unlink", "resolve") and nparts(op["name"]) is not None:
+            v = "rejected" if (res.get("kind") == "err" and res.get("err") == "invalidname") else "accepted"
+            nm = op["name"][:-1] if op["name"].endswith("@") else op["name"]
+            if verdict.setdefault(nm, v) != v:
+                out.append(({"kind": "hist", "class": "name-validity-inconsistent"}, "op %d: %s(%r) treats the name as %s, an earlier operation as %s" % (i, op["op"], nm, v, verdict[nm])))
+        key = nkey(op["name"]) if op["op"] in ("link", "unlink", "resolve") else None
+        # (3) a name is linked only to a manifest blob that exists, and the link is a file of its own
         if op["op"] == "link":
-            f = fold(op["name"])
             if res.get("kind") == "ok":
                 blob = snap["blobs"].get("sha256-" + op["d"])
+                present = blob is not None and snap["gets"].get(op["d"], -1) >= 0
                 if blob is None:
                     out.append(({"kind": "hist", "class": "link-without-blob-file"}, "op %d: Link returned nil but there is no blob file for %s.." % (i, op["d"][:8])))
-                elif snap["gets"].get(op["d"], -1) < 0:
+                elif not present:
                     out.append(({"kind": "hist", "class": "link-to-empty-blob"}, "op %d: Link returned nil but Get(%s..) reports the blob as absent (empty file left by a failed write)" % (i, op["d"][:8])))
-                if blob is not None and snap["gets"].get(op["d"], -1) >= 0:
-                    linked[f] = op["d"]
+                files = own_files(snap, nparts(op["name"]))
+                if not files:
+                    out.append(({"kind": "hist", "class": "link-not-at-own-path"},
+                                "op %d: Link(%r) returned nil but there is no manifest file manifests/<host>/<namespace>/<model>/<tag> for it (manifest files: %s, files elsewhere: %s)" % (
+                                    i, op["name"], sorted(snap["links"]), snap.get("stray"))))
+                elif present and not any(sha(f) == op["d"] for f in files):
+                    out.append(({"kind": "hist", "class": "link-wrong-bytes"}, "op %d: Link(%r, %s..) returned nil but the manifest file holds other bytes" % (i, op["name"], op["d"][:8])))
+                p = nparts(op["name"])
+                want = ("/".join(p[:3]) + ":" + p[3]).lower()
+                if files and want not in [x.lower() for x in (snap.get("names") or [])]:
+                    out.append(({"kind": "hist", "class": "link-missing-from-links"}, "op %d: Link(%r) returned nil but Links() does not list it: %s" % (i, op["name"], snap.get("names"))))
+                if present and files:
+                    linked[key] = (op["d"], p, op["name"])
                 else:
-                    linked.pop(f, None)
-            elif f is not None:
-                linked.pop(f, None)
-        if op["op"] == "unlink" and fold(op["name"]) is not None:
-            linked.pop(fold(op["name"]), None)
+                    linked.pop(key, None)
+            else:
+                linked.pop(key, None)
+        if op["op"] == "unlink":
+            linked.pop(key, None)
         if op["op"] == "raw":
             linked.pop(tuple(x.lower() for x in op["path"].split("/")), None)
         # (4) resolving a name returns the digest of exactly the bytes linked
-        if op["op"] == "resolve" and op["name"].endswith("@"):
-            pass
-        elif op["op"] == "resolve" and "@" in op["name"]:
+        if op["op"] == "resolve" and "@" in op["name"] and not op["name"].endswith("@"):
             dg = op["name"].rsplit("@", 1)[1]
             valid = dg[:7] in ("sha256:", "sha256-") and len(dg) == 71 and all(ch in "0123456789abcdefABCDEF" for ch in dg[7:])
             if valid != (res.get("kind") == "digest") or (valid and res.get("d") != dg[7:].lower()):
                 out.append(({"kind": "hist", "class": "resolve-at-digest"}, "op %d: Resolve(%r) = %s" % (i, op["name"], res)))
         elif op["op"] == "resolve" and res.get("kind") == "digest":
-            f = fold(op["name"])
-            files = [bytes.fromhex(v) for p, v in snap["links"].items() if tuple(x.lower() for x in p.split("/")) == f]
+            files = own_files(snap, nparts(op["name"]))
             if not any(sha(b) == res["d"] for b in files):
-                out.append(({"kind": "hist", "class": "resolve-not-hash-of-manifest"}, "op %d: Resolve returned %s.. which is not the hash of the manifest file" % (i, res["d"][:8])))
-            if f in linked and linked[f] != res["d"]:
+                out.append(({"kind": "hist", "class": "resolve-not-hash-of-manifest"}, "op %d: Resolve(%r) returned %s.. which is not the hash of a manifest file of that name" % (i, op["name"], res["d"][:8])))
+            if key in linked and linked[key][0] != res["d"]:
                 out.append(({"kind": "hist", "class": "resolve-differs-from-linked"},
-                            "op %d: Resolve(%s) returned %s.. but the last successful Link of this name was to %s.." % (i, op["name"], res["d"][:8], linked[f][:8])))
+                            "op %d: Resolve(%s) returned %s.. but the last successful Link of this name was to %s.." % (i, op["name"], res["d"][:8], linked[key][0][:8])))
             if snap["gets"].get(res["d"], None) is not None and snap["gets"][res["d"]] < 0 and sha(b"") != res["d"]:
                 out.append(({"kind": "hist", "class": "resolve-blob-missing"}, "op %d: Resolve returned %s.. but that blob is not retrievable afterwards" % (i, res["d"][:8])))
+        elif op["op"] == "resolve" and key in linked and res.get("kind") == "err":
+            out.append(({"kind": "hist", "class": "resolve-fails-for-linked-name"}, "op %d: Resolve(%r) fails (%s) although the name was linked to %s.." % (i, op["name"], res.get("err"), linked[key][0][:8])))
+        # (5) whatever happens to other names and blobs, a linked name keeps its own manifest file with the linked bytes
+        for k2, (d2, p2, n2) in list(linked.items()):
+            files = own_files(snap, p2)
+            if not any(sha(f) == d2 for f in files):
+                out.append(({"kind": "hist", "class": "linked-manifest-changed-by-other-op"},
+                            "after op %d (%s %r) the manifest of %r, linked to %s.., %s" % (
+                                i, op["op"], op.get("name", op.get("path", "")), n2, d2[:8], "is gone" if not files else "holds other bytes")))
+                linked.pop(k2, None)
+        if snap.get("stray"):
+            out.append(({"kind": "hist", "class": "file-outside-blobs-and-manifests"}, "after op %d (%s %r) the cache directory contains %s" % (i, op["op"], op.get("name", ""), snap["stray"])))
     return out
 
 
